@@ -1,6 +1,8 @@
 import GrmVerif.Lemmas.LexUnescape
 import GrmVerif.Lemmas.LexParse
 import GrmVerif.Lemmas.LexTables
+import GrmVerif.Lemmas.LexSpecDup
+import GrmVerif.Lemmas.LexSpecWhere
 /-!
 # C11 — a lexer definition is a faithful image of its `.l` source
 
@@ -8,6 +10,10 @@ Property theorems only. Models: `Model/LexUnescape.lean` (the escape scanner and
 `trim_end_unescaped` of `lrlex/src/lib/parser.rs`), `Model/LexParse.lean` (rule-line splitting,
 flag combination). Specifications: `Lemmas/LexUnescape.lean` (`unescapeSpec`),
 `Lemmas/LexParse.lean` (`ruleLineSpec`), `Model/LexTables.lean` (`flagSpec`, the extracted tables).
+Whole specifications: model `Model/LexSpecParse.lean` (`parseSpec`: the loops of `LexParser::parse`
+over byte offsets, with fuel, slices that may panic), specification `Lemmas/LexSpecParse.lean`
+(`specParse`: structural recursion over the lines of the text), layout and names
+`Lemmas/LexSpecProps.lean`, `Lemmas/LexSpecDup.lean`, `Lemmas/LexSpecWhere.lean`.
 -/
 namespace GrmVerif.C11
 open GrmVerif.LexUnescape GrmVerif.LexParse GrmVerif.LexTables
@@ -109,6 +115,346 @@ theorem flags_in_force (dflt hdr bld : List (Option Bool)) (i : Nat) (d h b : Op
     ((effectiveFlags dflt hdr bld)[i]?).map (fun e => e.getD r) = some (flagSpec r d h b) := by
   rw [effectiveFlags_getElem? dflt hdr bld i d h b hd hh hb]
   cases b <;> cases h <;> cases d <;> rfl
+
+/-! ## Whole specifications
+
+`pre` is the text up to the end of the `%grmtools` section (where the real section parser stops:
+the `start` argument of `LexParser::new_with_lex_flags` is `byteLen pre`, a character boundary by
+construction), `body` the rest. `posix`, `comments` are the two flags the parse consults, `compiles`
+is the regex engine (`Rule::new` succeeds on a `re_str`). -/
+
+open GrmVerif.LexSpecParse in
+/-- **The loops terminate and nothing panics.** For every text, every flag setting, every regex
+engine and every fuel above the length of the text, the model of `LexParser::parse` — byte offsets,
+`&src[i..]` slices that panic off a character boundary, the `assert_eq!` at the end, two fuelled
+loops — returns (no slice panics, the assertion holds, the fuel is not used up), and what it returns
+is the specification over the lines of the text. -/
+theorem parse_total (posix comments : Bool) (compiles : List Char → Bool) (pre body : List Char)
+    (fuel : Nat) (hf : byteLen (pre ++ body) < fuel) :
+    parseWith (lexEnv posix comments compiles) fuel (pre ++ body) (byteLen pre)
+      = some (specParse (lexEnv posix comments compiles) pre body) :=
+  parseWith_eq _ (realCfg_ok posix) pre body fuel hf
+
+open GrmVerif.LexSpecParse in
+/-- **The parser computes the line specification** (fuel `|src| + 1`): start states, rules and the
+complete error list, for accepted and rejected texts alike. -/
+theorem parse_eq_spec (posix comments : Bool) (compiles : List Char → Bool) (pre body : List Char) :
+    parseSpec (lexEnv posix comments compiles) (pre ++ body) (byteLen pre)
+      = some (specParse (lexEnv posix comments compiles) pre body) :=
+  parseSpec_eq _ (realCfg_ok posix) pre body
+
+open GrmVerif.LexSpecParse in
+/-- **Rules in source order.** If a text is accepted then it has a `%%` line, and its rules are
+exactly the rule lines of the rules section (the lines up to the next `%%` line that are not empty,
+not comments, do not start with a blank), in order: the `k`-th rule is the `k`-th rule line as the
+line-level model `parseRuleLine` reads it — name, `re_str`, name span shifted by the offset of the
+line — with its restriction and target looked up in the start states of the definition, and its
+token id is `k`. -/
+theorem rules_in_source_order (posix comments : Bool) (compiles : List Char → Bool) (pre body : List Char)
+    (sts : List StartState) (rules : List Rule)
+    (h : parseSpec (lexEnv posix comments compiles) (pre ++ body) (byteLen pre) = some (.ok (sts, rules))) :
+    ∃ sec, rulesSectionOf comments (splitLinesAt body (byteLen pre)) = some sec ∧
+      ((ruleLinesOf comments sec).zipIdx).map
+          (fun p => ruleOfLineM (lexEnv posix comments compiles) sts p.1 p.2)
+        = rules.map some := by
+  rw [parse_eq_spec] at h
+  obtain ⟨sec, hsec, _, _, hmap⟩ := specParse_ok _ pre body sts rules (Option.some.inj h)
+  refine ⟨sec, hsec, ?_⟩
+  rw [← hmap]
+  apply List.map_congr_left
+  intro p _
+  exact ruleOfLineM_eq _ (realCfg_ok posix) sts p.1 p.2
+
+open GrmVerif.LexSpecParse in
+/-- **Rule `k` is rule line `k`**, field by field (`rules_in_source_order` read at one index): there
+are as many rules as rule lines; the `k`-th rule has token id `k`, the name, `re_str` and (shifted)
+name span that `parseRuleLine` reads off the `k`-th rule line; the ids of its restriction are those
+of the states its `<a,b>` names are found under, and its target is the id of the state its
+`<s>`/`<+s>`/`<-s>` names, with the operation written. -/
+theorem rule_k_is_line_k (posix comments : Bool) (compiles : List Char → Bool) (pre body : List Char)
+    (sts : List StartState) (rules : List Rule) (sec : List Line)
+    (h : parseSpec (lexEnv posix comments compiles) (pre ++ body) (byteLen pre) = some (.ok (sts, rules)))
+    (hsec : rulesSectionOf comments (splitLinesAt body (byteLen pre)) = some sec) :
+    rules.length = (ruleLinesOf comments sec).length ∧
+    ∀ (k : Nat) (ln : Line) (r : Rule), (ruleLinesOf comments sec)[k]? = some ln → rules[k]? = some r →
+      ∃ rl, parseRuleLine (realCfg posix) isPWS isSpaceSep ln.2 = some (.ok rl) ∧
+        r.tokId = k ∧ r.name = rl.name ∧ r.re = rl.re ∧
+        r.span = (ln.1 + rl.spanStart, ln.1 + rl.spanEnd) ∧
+        rl.states.map (fun n => (findState sts n).map (·.id)) = r.states.map some ∧
+        (match rl.target with
+          | none => r.target = none
+          | some (op, n) => ∃ s, findState sts n = some s ∧ r.target = some (s.id, op)) := by
+  obtain ⟨sec', hsec', hmap⟩ := rules_in_source_order posix comments compiles pre body sts rules h
+  rw [hsec] at hsec'
+  obtain rfl := Option.some.inj hsec'
+  refine ⟨?_, ?_⟩
+  · have := congrArg List.length hmap
+    simpa using this.symm
+  · intro k ln r hln hr
+    have hk := congrArg (fun l => l[k]?) hmap
+    simp only [List.getElem?_map, List.getElem?_zipIdx, hln, hr, Option.map_some, Nat.zero_add] at hk
+    have hk' := Option.some.inj hk
+    unfold ruleOfLineM at hk'
+    simp only [lexEnv] at hk'
+    cases hp : parseRuleLine (realCfg posix) isPWS isSpaceSep ln.2 with
+    | none => simp [hp] at hk'
+    | some res =>
+      cases res with
+      | error e => simp [hp] at hk'
+      | ok rl =>
+        simp only [hp, resolveRule] at hk'
+        refine ⟨rl, rfl, ?_⟩
+        cases hrt : resolveTarget sts rl.target with
+        | none => simp [hrt] at hk'
+        | some tgt =>
+          cases hra : resolveAll sts rl.states with
+          | none => simp [hrt, hra] at hk'
+          | some ids =>
+            simp only [hrt, hra, Option.bind_some, Option.map_some, Option.some.injEq] at hk'
+            subst hk'
+            refine ⟨rfl, rfl, rfl, rfl, resolveAll_some sts rl.states ids hra, ?_⟩
+            cases htg : rl.target with
+            | none => simp only [htg, resolveTarget, Option.some.injEq] at hrt ⊢; exact hrt.symm
+            | some on =>
+              obtain ⟨op, n⟩ := on
+              simp only [htg, resolveTarget, Option.map_eq_some_iff] at hrt ⊢
+              obtain ⟨s, hs, hst⟩ := hrt
+              exact ⟨s, hs, hst.symm⟩
+
+open GrmVerif.LexSpecParse in
+/-- **Start states.** If a text is accepted then every declaration line (the lines before the `%%`
+line that are not blank and not comments, from their first non-blank character) is accepted by the
+line-level model `parseDeclLine`, and the start states are `INITIAL` (id 0, inclusive, empty span)
+followed by the names of the declaration lines, in order of declaration, each with the span of its
+declaration (shifted by the offset of the line) and the exclusive flag of its line, numbered 0, 1, 2, …. -/
+theorem states_declared (posix comments : Bool) (compiles : List Char → Bool) (pre body : List Char)
+    (sts : List StartState) (rules : List Rule)
+    (h : parseSpec (lexEnv posix comments compiles) (pre ++ body) (byteLen pre) = some (.ok (sts, rules))) :
+    (∀ ln ∈ declLinesOf comments (splitLinesAt body (byteLen pre)), ∃ d, parseDeclLine isPWS ln.2 = .ok d) ∧
+      sts = numberFrom 0 (stateOccs comments (splitLinesAt body (byteLen pre))) ∧
+      ∀ (j : Nat) (s : StartState), sts[j]? = some s → s.id = j := by
+  rw [parse_eq_spec] at h
+  obtain ⟨_, _, hall, hsts, _⟩ := specParse_ok _ pre body sts rules (Option.some.inj h)
+  refine ⟨hall, hsts, ?_⟩
+  intro j s hj
+  rw [hsts] at hj
+  have := (numberFrom_getElem? 0 _ j s hj).1
+  omega
+
+open GrmVerif.LexSpecParse in
+/-- **Restrictions and targets resolve to these states.** In an accepted text every rule line is
+accepted by the line-level model, and every state named in its `<a,b>` restriction or in its
+`<s>`/`<+s>`/`<-s>` target is a start state of the definition (the ids stored in the rule are the ids
+of these states: `rules_in_source_order`, `resolveRule`). -/
+theorem rule_states_resolve (posix comments : Bool) (compiles : List Char → Bool) (pre body : List Char)
+    (sts : List StartState) (rules : List Rule) (sec : List Line)
+    (h : parseSpec (lexEnv posix comments compiles) (pre ++ body) (byteLen pre) = some (.ok (sts, rules)))
+    (hsec : rulesSectionOf comments (splitLinesAt body (byteLen pre)) = some sec) :
+    ∀ ln ∈ ruleLinesOf comments sec, ∃ rl,
+      parseRuleLine (realCfg posix) isPWS isSpaceSep ln.2 = some (.ok rl) ∧
+      (∀ n ∈ rl.states, ∃ s ∈ sts, s.name = n) ∧
+      (∀ op n, rl.target = some (op, n) → ∃ s ∈ sts, s.name = n) := by
+  rw [parse_eq_spec] at h
+  intro ln hln
+  obtain ⟨rl, hrl, h1, h2⟩ := specParse_ok_names _ pre body sts rules (Option.some.inj h) sec hsec ln hln
+  exact ⟨rl, by rw [rule_line_spec]; exact congrArg some hrl, h1, h2⟩
+
+open GrmVerif.LexSpecParse in
+/-- **Unknown target state.** A rule line that the line-level model accepts and whose target state
+is not among the start states declared so far stops the parse with `UnknownStartState` located right
+after the last blank of the line (at the `<` of the target) — in the model of `parse_rule`, without
+panic. -/
+theorem unknown_target_state (posix comments : Bool) (compiles : List Char → Bool) (off : Nat)
+    (raw : List Char) (rl : RuleLine) (st : PState) (op : Nat) (n : List Char)
+    (hrl : parseRuleLine (realCfg posix) isPWS isSpaceSep raw = some (.ok rl))
+    (ht : rl.target = some (op, n)) (hu : findState st.states n = none) :
+    ruleLineStep (lexEnv posix comments compiles) off raw st
+      = some (.error (st.errs ++ [mkErr .unknownStartState (off + nameOffOf raw)])) := by
+  rw [rule_line_spec] at hrl
+  rw [ruleLineStep_eq _ (realCfg_ok posix)]
+  exact congrArg some (step_unknown_target _ off raw rl st op n (Option.some.inj hrl) ht hu)
+
+open GrmVerif.LexSpecParse in
+/-- **Unknown state in a restriction.** A rule line that the line-level model accepts, whose target
+(if any) is known and whose name is not taken, but whose `<a,b>` restriction names a state that is
+not declared, stops the parse with `UnknownStartState` at the start of the line. -/
+theorem unknown_restriction_state (posix comments : Bool) (compiles : List Char → Bool) (off : Nat)
+    (raw : List Char) (rl : RuleLine) (st : PState) (tgt : Option (Nat × Nat))
+    (hrl : parseRuleLine (realCfg posix) isPWS isSpaceSep raw = some (.ok rl))
+    (htgt : resolveTarget st.states rl.target = some tgt)
+    (hfresh : ∀ n, rl.name = some n → findRule st.rules n = none)
+    (hu : ∃ n ∈ rl.states, findState st.states n = none) :
+    ruleLineStep (lexEnv posix comments compiles) off raw st
+      = some (.error (st.errs ++ [mkErr .unknownStartState off])) := by
+  rw [rule_line_spec] at hrl
+  rw [ruleLineStep_eq _ (realCfg_ok posix)]
+  exact congrArg some (step_unknown_restriction _ off raw rl st tgt (Option.some.inj hrl) htgt hfresh hu)
+
+open GrmVerif.LexSpecParse in
+/-- **A text that names an undeclared start state is rejected.** If a rule line that the line-level
+model accepts names, in its restriction or as its target, a state that is neither `INITIAL` nor
+declared on a declaration line, then the text is not accepted (for a target, and for the restriction
+of a rule whose name is not taken, the error that stops the parse at that line is
+`unknown_target_state` / `unknown_restriction_state`). -/
+theorem undeclared_state_rejected (posix comments : Bool) (compiles : List Char → Bool) (pre body : List Char)
+    (sec : List Line) (ln : Line) (rl : RuleLine) (n : List Char)
+    (hsec : rulesSectionOf comments (splitLinesAt body (byteLen pre)) = some sec)
+    (hln : ln ∈ ruleLinesOf comments sec)
+    (hrl : parseRuleLine (realCfg posix) isPWS isSpaceSep ln.2 = some (.ok rl))
+    (hnamed : n ∈ rl.states ∨ ∃ op, rl.target = some (op, n))
+    (hund : n ∉ (stateOccs comments (splitLinesAt body (byteLen pre))).map (·.1)) :
+    ∃ es, parseSpec (lexEnv posix comments compiles) (pre ++ body) (byteLen pre) = some (.error es) := by
+  have hp := parse_eq_spec posix comments compiles pre body
+  cases hres : specParse (lexEnv posix comments compiles) pre body with
+  | error es => exact ⟨es, by rw [hp, hres]⟩
+  | ok v =>
+    exfalso
+    obtain ⟨sts, rules⟩ := v
+    rw [hres] at hp
+    obtain ⟨rl', hrl', h1, h2⟩ := rule_states_resolve posix comments compiles pre body sts rules sec hp hsec ln hln
+    rw [hrl] at hrl'
+    obtain rfl : rl = rl' := by simpa using hrl'
+    obtain ⟨_, hsts, _⟩ := states_declared posix comments compiles pre body sts rules hp
+    have hnames : ∀ s ∈ sts, s.name ∈ (stateOccs comments (splitLinesAt body (byteLen pre))).map (·.1) := by
+      intro s hs
+      rw [hsts] at hs
+      simp only [numberFrom, List.mem_map] at hs
+      obtain ⟨p, hp', rfl⟩ := hs
+      exact List.mem_map.mpr ⟨p.1, (List.mem_zipIdx hp').2.2 ▸ List.getElem_mem _, rfl⟩
+    rcases hnamed with hn | ⟨op, ht⟩
+    · obtain ⟨s, hs, rfl⟩ := h1 n hn; exact hund (hnames s hs)
+    · obtain ⟨s, hs, rfl⟩ := h2 op n ht; exact hund (hnames s hs)
+
+open GrmVerif.LexSpecParse in
+/-- **Two rules of the same name are rejected.** If two rule lines of the rules section, in this
+order, are accepted by the line-level model with the same name `n`, then the text is rejected, and
+the error list either contains one `DuplicateName` error that lists the name spans of both lines —
+spans that cut exactly `n` out of the text the user wrote — or is `errs ++ [e]` with `e` an error of
+a kind that stops the parse (every kind but duplicates and verbatim lines), located at or before the
+end of the second line: the parse was stopped before the second occurrence was done. (An error that
+stops the parse later leaves the `DuplicateName` error in the list.) -/
+theorem duplicate_names_rejected (posix comments : Bool) (compiles : List Char → Bool) (pre body : List Char)
+    (sec A B : List Line) (ln1 ln2 : Line) (r1 r2 : RuleLine) (n : List Char)
+    (hsec : rulesSectionOf comments (splitLinesAt body (byteLen pre)) = some sec)
+    (hA : ruleLinesOf comments sec = A ++ ln1 :: B) (hB : ln2 ∈ B)
+    (h1 : parseRuleLine (realCfg posix) isPWS isSpaceSep ln1.2 = some (.ok r1)) (hn1 : r1.name = some n)
+    (h2 : parseRuleLine (realCfg posix) isPWS isSpaceSep ln2.2 = some (.ok r2)) (hn2 : r2.name = some n) :
+    (∃ es, parseSpec (lexEnv posix comments compiles) (pre ++ body) (byteLen pre) = some (.error es) ∧
+      (HasDup .duplicateName (ln1.1 + r1.spanStart, ln1.1 + r1.spanEnd)
+          (ln2.1 + r2.spanStart, ln2.1 + r2.spanEnd) es ∨
+        ∃ errs, StoppedAt (· ≤ ln2.1 + byteLen ln2.2) errs es)) ∧
+    sliceB (pre ++ body) (ln1.1 + r1.spanStart) (ln1.1 + r1.spanEnd) = some n ∧
+    sliceB (pre ++ body) (ln2.1 + r2.spanStart) (ln2.1 + r2.spanEnd) = some n := by
+  have hs1 := spans_index_source posix ln1.2 r1 n h1 hn1
+  have hs2 := spans_index_source posix ln2.2 r2 n h2 hn2
+  rw [rule_line_spec] at h1 h2
+  have hloc : ∀ ln ∈ ruleLinesOf comments sec, Located (pre ++ body) ln := by
+    intro ln hln
+    exact rulesSectionOf_located comments _ _ sec (located_lines pre body) hsec ln
+      (ruleLinesOf_subset comments sec ln hln)
+  refine ⟨?_, ?_, ?_⟩
+  · rw [parse_eq_spec]
+    obtain ⟨es, hes, hd⟩ := specParse_dup_rules_at (lexEnv posix comments compiles) pre body sec A B ln1 ln2
+      r1 r2 n hsec hA hB (Option.some.inj h1) hn1 (Option.some.inj h2) hn2
+    exact ⟨es, congrArg some hes, hd⟩
+  · obtain ⟨a, b, hab, ha⟩ := hloc ln1 (by rw [hA]; simp)
+    rw [hab, ← ha]; exact hs1 a b
+  · obtain ⟨a, b, hab, ha⟩ := hloc ln2 (by rw [hA]; simp [hB])
+    rw [hab, ← ha]; exact hs2 a b
+
+open GrmVerif.LexSpecParse in
+/-- **Two start states of the same name are rejected.** The occurrences of start-state names are
+the implicit `INITIAL` (empty span 0..0) and then the names of the declaration lines in order
+(`stateOccs`). If two occurrences, in this order, carry the same name, then the text is rejected, and
+the error list either contains one `DuplicateStartState` error that lists the spans of both
+occurrences, or is `errs ++ [e]` with `e` an error that stops the parse, located at or before the
+start of the second occurrence. (That the span of a declared name cuts the name out of the text is
+`decl_spans_index_source` / `state_spans_index_source`; the span of `INITIAL` is empty.) -/
+theorem duplicate_states_rejected (posix comments : Bool) (compiles : List Char → Bool) (pre body : List Char)
+    (A B : List Occ) (oc1 oc2 : Occ)
+    (hA : stateOccs comments (splitLinesAt body (byteLen pre)) = A ++ oc1 :: B) (hB : oc2 ∈ B)
+    (hn : oc1.1 = oc2.1) :
+    ∃ es, parseSpec (lexEnv posix comments compiles) (pre ++ body) (byteLen pre) = some (.error es) ∧
+      (HasDup .duplicateStartState oc1.2.1 oc2.2.1 es ∨ ∃ errs, StoppedAt (· ≤ oc2.2.1.1) errs es) := by
+  rw [parse_eq_spec]
+  obtain ⟨es, hes, hd⟩ := specParse_dup_states_at (lexEnv posix comments compiles) pre body A B oc1 oc2 hA hB hn
+  exact ⟨es, congrArg some hes, hd⟩
+
+open GrmVerif.LexSpecParse in
+/-- **No accepted definition carries a name twice**: the named rules of an accepted text have
+pairwise distinct names, and so have its start states. -/
+theorem names_distinct (posix comments : Bool) (compiles : List Char → Bool) (pre body : List Char)
+    (sts : List StartState) (rules : List Rule)
+    (h : parseSpec (lexEnv posix comments compiles) (pre ++ body) (byteLen pre) = some (.ok (sts, rules))) :
+    (rules.filterMap (·.name)).Nodup ∧ (sts.map (·.name)).Nodup := by
+  rw [parse_eq_spec] at h
+  exact specParse_distinct _ pre body sts rules (Option.some.inj h)
+
+open GrmVerif.LexSpecParse in
+/-- **The spans of the declared states of an accepted text index the source**: the span of every
+start state but `INITIAL` cuts its name out of the text the user wrote. -/
+theorem state_spans_index_source (posix comments : Bool) (compiles : List Char → Bool) (pre body : List Char)
+    (sts : List StartState) (rules : List Rule)
+    (h : parseSpec (lexEnv posix comments compiles) (pre ++ body) (byteLen pre) = some (.ok (sts, rules)))
+    (j : Nat) (s : StartState) (hj : sts[j + 1]? = some s) :
+    sliceB (pre ++ body) s.span.1 s.span.2 = some s.name := by
+  obtain ⟨_, hsts, _⟩ := states_declared posix comments compiles pre body sts rules h
+  rw [hsts] at hj
+  obtain ⟨_, hocc⟩ := numberFrom_getElem? 0 _ (j + 1) s hj
+  simp only [stateOccs, List.getElem?_cons_succ] at hocc
+  have hmem := List.mem_of_getElem? hocc
+  simp only [List.mem_flatMap] at hmem
+  obtain ⟨ln, hln, hin⟩ := hmem
+  have hloc := declLinesOf_located comments (pre ++ body) _ (located_lines pre body) ln hln
+  obtain ⟨a, b, hab, ha⟩ := hloc
+  unfold declaredOn at hin
+  cases hpd : parseDeclLine isPWS ln.2 with
+  | error e => simp [hpd] at hin
+  | ok d =>
+    obtain ⟨excl, names⟩ := d
+    simp only [hpd, List.mem_map, Prod.mk.injEq] at hin
+    obtain ⟨t, ht, h1, h2, _⟩ := hin
+    have := decl_spans_index_source ln.2 excl names hpd t.1 t.2.1 t.2.2 ht a b
+    rw [hab, ← h1, ← h2, ← ha]; exact this
+
+/-- test: an accepted text after a `%grmtools` section of 14 bytes: two declaration lines with
+several blanks, a comment, a restricted rule with a target, a skip rule; ids, flags, spans -/
+example : (match GrmVerif.LexSpecParse.parseSpec (GrmVerif.LexSpecParse.lexEnv false true (fun _ => true))
+      "%grmtools{é}\n%x ST  a_b\n%s Q\n%%\n// c\n<ST,Q>a+ <+a_b>'A'\n\\! ;\n".toList 14 with
+    | some (.ok (sts, _)) => some sts
+    | _ => none)
+    = some [⟨0, "INITIAL".toList, (0, 0), false⟩, ⟨1, "ST".toList, (17, 19), true⟩,
+            ⟨2, "a_b".toList, (21, 24), true⟩, ⟨3, "Q".toList, (28, 29), false⟩] := by
+  decide
+example : (match GrmVerif.LexSpecParse.parseSpec (GrmVerif.LexSpecParse.lexEnv false true (fun _ => true))
+      "%grmtools{é}\n%x ST  a_b\n%s Q\n%%\n// c\n<ST,Q>a+ <+a_b>'A'\n\\! ;\n".toList 14 with
+    | some (.ok (_, rules)) => some rules
+    | _ => none)
+    = some [⟨0, some "A".toList, (54, 55), "a+".toList, [1, 3], some (2, 1)⟩,
+            ⟨1, none, (60, 60), "!".toList, [], none⟩] := by
+  decide
+/-- test: errors are collected — a duplicate state, a duplicate name, a verbatim line — until an
+unknown start state stops the parse -/
+example : (match GrmVerif.LexSpecParse.parseSpec (GrmVerif.LexSpecParse.lexEnv false false (fun _ => true))
+      "%s A  B\n%x A\n%%\n<A>a <+B>'X'\nb 'X'\n c ;\n<Q>d 'D'\n".toList 0 with
+    | some (.error es) => some es
+    | _ => none)
+    = some [⟨.duplicateStartState, [(3, 4), (11, 12)]⟩, ⟨.duplicateName, [(26, 27), (32, 33)]⟩,
+            ⟨.verbatimNotSupported, [(35, 39)]⟩, ⟨.unknownStartState, [(40, 40)]⟩] := by
+  decide
+/-- test: the hypotheses of `duplicate_names_rejected` / `duplicate_states_rejected` are satisfiable -/
+example : GrmVerif.LexSpecParse.rulesSectionOf false
+      (GrmVerif.LexSpecParse.splitLinesAt "%%\na 'X'\nb 'X'".toList 0)
+    = some [(2, []), (3, "a 'X'".toList), (9, "b 'X'".toList)] := by decide
+example : GrmVerif.LexSpecParse.ruleLinesOf false [(2, []), (3, "a 'X'".toList), (9, "b 'X'".toList)]
+    = [] ++ (3, "a 'X'".toList) :: [(9, "b 'X'".toList)] := by decide
+example : GrmVerif.LexSpecParse.stateOccs false
+      (GrmVerif.LexSpecParse.splitLinesAt "%s A\n%x B A\n%%".toList 0)
+    = [(GrmVerif.LexSpecParse.initialName, (0, 0), false)] ++ ("A".toList, (3, 4), false)
+        :: [("B".toList, (8, 9), true), ("A".toList, (10, 11), true)] := by decide
+/-- test: a start offset inside a character is the panic the theorems exclude -/
+example : GrmVerif.LexSpecParse.parseSpec (GrmVerif.LexSpecParse.lexEnv false false (fun _ => true))
+    "é%%".toList 1 = none := by decide
 
 /-- the tables are the ones the model was written against (a change of the sources shows here) -/
 example : GrmVerif.Extracted.RE_LEX_ESC_LITERAL_SRC
